@@ -56,10 +56,10 @@ func contents() []content {
 }
 
 type leaf struct {
-	name      string
-	bounded   bool // needs bounded constraints
-	mk        func(c content) vxfw.Widget
-	usesText  bool
+	name     string
+	bounded  bool // needs bounded constraints
+	mk       func(c content) vxfw.Widget
+	usesText bool
 }
 
 func leaves() []leaf {
@@ -74,7 +74,9 @@ func leaves() []leaf {
 			t.Softwrap = false
 			return t
 		}, true},
-		{"Button", true, func(c content) vxfw.Widget { return button.New(c.text, func() (vxfw.Command, error) { return nil, nil }) }, true},
+		{"Button", true, func(c content) vxfw.Widget {
+			return button.New(c.text, func() (vxfw.Command, error) { return nil, nil })
+		}, true},
 		{"TextField", false, func(c content) vxfw.Widget { tf := textfield.New(); tf.InsertStringAtCursor(c.text); return tf }, true},
 		{"Dynamic", true, func(c content) vxfw.Widget {
 			lines := strings.Split(c.text, "\n")
@@ -199,6 +201,34 @@ func widgetSweep(idx, n int) {
 										Why: fmt.Sprintf("child %dx%d placed at col %d row %d inside %dx%d (margins l=%d r=%d t=%d b=%d)", cw, chh, left, top, s.Size.Width, s.Size.Height, left, right, top, bottom)})
 									continue
 								}
+							}
+						}
+						// the same widget instance drawn again under a tighter constraint (the terminal shrank):
+						// what it remembers from the first draw must not leak into the second
+						if mw <= 5 && mh <= 5 && len(c.text) <= 1000 {
+							redrawBad := false
+							for _, m2 := range [][2]uint16{{mw, mh / 2}, {mw / 2, mh}, {mw, 1}, {1, mh}} {
+								if m2[0] == mw && m2[1] == mh {
+									continue
+								}
+								r.Count("draws", 1)
+								cs2 := fmt.Sprintf("%s, then max %dx%d", cs, m2[0], m2[1])
+								var s2 vxfw.Surface
+								panicked, site, msg := explore.Guard(func() { s2, _ = w.Draw(dctx(0, 0, m2[0], m2[1])) })
+								if panicked {
+									r.Violation(sig("redraw|panic|"+site+"|"+explore.PanicClass(msg)), cost, detail{Part: "layout", Widget: name, Case: cs2, Why: "panic: " + msg})
+									redrawBad = true
+									break
+								}
+								if why := checkSurface(s2, vxfw.Size{Width: m2[0], Height: m2[1]}, 0); why != "" {
+									cl, rest, _ := strings.Cut(why, "|")
+									r.Violation(sig("redraw|"+cl), cost, detail{Part: "layout", Widget: name, Case: cs2, Why: rest})
+									redrawBad = true
+									break
+								}
+							}
+							if redrawBad {
+								continue
 							}
 						}
 						r.Distinct(explore.Hash("layout", name, cs))
@@ -479,8 +509,8 @@ func main() {
 	n := r.Get("draws") + r.Get("surface_cases") + r.Get("render_cases")
 	r.Finish(explore.Coverage{
 		States: -1, Transitions: n, Traces: n, Evaluations: n,
-		Rule:       "layout: 8 widgets (Text and RichText soft/hard, Button, TextField, list.Dynamic with/without gutter) bare and wrapped in Center once and twice x 10 contents (empty, one grapheme, wide, fitting, multi-line, 70000 columns, 70000 lines) x max width x max height over {0,1,2,3,5,65534,65535}: no panic, surface <= maximum, buffer = w*h, centred child inside with margins equal to within one; surfaces: NewSurface for {0..3}^2 and sizes around and beyond 65535 cells, WriteCell at coordinate classes {0,1,mid,dim-1,dim,65535} and at the cells that alias under 16-bit arithmetic; rendering: 4x3 screen, 3 children from 6 geometries (overlapping, negative origin, oversized) x 5 z assignments + a grandchild, run through the real App.Run and compared with a reference painter (children clipped to parents, ascending z). distinct = cases that passed",
-		Exhaustive: true,
+		Rule:        "layout: 8 widgets (Text and RichText soft/hard, Button, TextField, list.Dynamic with/without gutter) bare and wrapped in Center once and twice x 10 contents (empty, one grapheme, wide, fitting, multi-line, 70000 columns, 70000 lines) x max width x max height (and, for small constraints and contents, the same widget instance drawn again under four tighter constraints) over {0,1,2,3,5,65534,65535}: no panic, surface <= maximum, buffer = w*h, centred child inside with margins equal to within one; surfaces: NewSurface for {0..3}^2 and sizes around and beyond 65535 cells, WriteCell at coordinate classes {0,1,mid,dim-1,dim,65535} and at the cells that alias under 16-bit arithmetic; rendering: 4x3 screen, 3 children from 6 geometries (overlapping, negative origin, oversized) x 5 z assignments + a grandchild, run through the real App.Run and compared with a reference painter (children clipped to parents, ascending z). distinct = cases that passed",
+		Exhaustive:  true,
 		Assumptions: []string{"Center, Button and list.Dynamic document that they need bounded constraints: unbounded maxima are not offered to them", "bounded containers allocate max.Width x max.Height cells; combinations above 2^26 cells are skipped"},
 	})
 }
